@@ -20,10 +20,12 @@ EXPLANATION = (
     "returns a member of the working family (the data parameter or a stage result), and the result of every stage call "
     "on a family member is bound to a name (not discarded) unless the stage is check-only. One named exclusion: the "
     "inner check-only array validation inside pandas ColumnBackend.validate (its result is written back only when "
-    "parsers are declared). NOT decided: that the output re-validates (a fixpoint property over values)."
+    "parsers are declared). (R3) a snapshot computed from the working object (column_info = collect_column_info(X, ...)) "
+    "and handed to a checking stage (collect_schema_components, check_column_presence, ...) is recomputed after the "
+    "last parsing stage that replaces X on every path - otherwise the checks are driven by the un-parsed columns. NOT decided: that the output re-validates (a fixpoint property over values)."
 )
 LEVEL_RULE = "one obligation per stage call / return in the validate methods and parser pipelines"
-FLOORS = {"R1": 30, "R2": 12}
+FLOORS = {"R1": 30, "R2": 12, "R3": 2}
 
 STAGES = {"validate", "_validate", "coerce_dtype", "set_default", "set_defaults", "add_missing_columns",
           "strict_filter_columns", "run_parsers", "drop_invalid_rows", "preprocess", "lazy", "collect", "add_schema",
@@ -211,9 +213,76 @@ def analyse(ctx, f):
     return n
 
 
+CHECK_STAGES = {"collect_schema_components", "run_checks_and_handle_errors", "check_column_presence", "check_column_names_are_unique",
+                "check_column_values_are_unique", "run_schema_component_checks", "run_checks"}
+
+
+def r3_snapshot_freshness(ctx, f):
+    """A snapshot computed from the working object (D = g(X, ...)) and later handed to a checking stage must have been
+    computed after the last parsing stage that redefined X: otherwise the checks are driven by metadata of the
+    un-parsed object (e.g. columns added by add_missing_columns are never checked)."""
+    cfg = cfg_of(f.node)
+    data = None
+    for p in f.positional[1:3]:
+        if p in ("check_obj", "obj"):
+            data = p
+    if data is None:
+        return 0
+    # snapshots: names assigned from a call that takes the data object as an argument and are not themselves the data
+    snaps = {}
+    for s in function_stmts(f):
+        if isinstance(s, ast.Assign) and len(s.targets) == 1 and isinstance(s.targets[0], ast.Name) and isinstance(s.value, ast.Call):
+            t = s.targets[0].id
+            if t == data:
+                continue
+            if any(isinstance(a, ast.Name) and a.id == data for a in s.value.args) and callee_last(s.value) not in STAGES \
+                    and callee_last(s.value) not in ("subsample", "ErrorHandler"):
+                snaps.setdefault(t, []).append(s)
+    if not snaps:
+        return 0
+    rd = cfg.reaching_defs()
+    n = 0
+    # the uses: check-stage calls (possibly rows of a core_checks list) mentioning the snapshot
+    for s in function_stmts(f):
+        if not isinstance(s, (ast.Assign, ast.Expr, ast.Return, ast.AnnAssign)):
+            continue
+        node = cfg.node_of(s)
+        if node is None:
+            continue
+        stage_here = [c for c in calls_in(s) if callee_last(c) in CHECK_STAGES] or (
+            [1] if any(isinstance(a, ast.Attribute) and a.attr in CHECK_STAGES for a in ast.walk(s)) else [])
+        if not stage_here:
+            continue
+        used = {x.id for x in ast.walk(s) if isinstance(x, ast.Name) and x.id in snaps}
+        for d in sorted(used):
+            n += 1
+            stale = None
+            for dd in rd[node.id].get(d, set()):
+                # is there a (re)definition of the data object after this snapshot definition that reaches the use,
+                # on a path along which the snapshot is not recomputed?
+                defs_d = {cfg.node_of(x).id for x in snaps[d] if cfg.node_of(x) is not None}
+                reach = cfg.reachable(dd, skip_nodes=defs_d - {dd}, skip_labels=("exc", "fin-exc"))
+                for dx in rd[node.id].get(data, set()):
+                    if dx in reach and dx != dd and dx != cfg.entry.id and node.id in cfg.reachable(dx, skip_nodes=defs_d, skip_labels=("exc", "fin-exc")):
+                        stale = (dd, dx)
+                        break
+                if stale:
+                    break
+            ctx.ob("R3", f, f"{f.short}: `{d}` handed to `{txt(s)[:50]}` describes the parsed object", stale is None,
+                   "recomputed after the last parsing stage" if stale is None else
+                   f"`{d}` was computed at line {cfg.nodes[stale[0]].lineno} from `{data}`, which a parsing stage replaces at line "
+                   f"{cfg.nodes[stale[1]].lineno} on a path that reaches this checking stage without recomputing `{d}`: the checks are driven by "
+                   "the columns of the un-parsed object (e.g. columns added by add_missing_columns are never checked)", f.loc(s))
+    return n
+
+
 def run(ctx):
     ix = ctx.ix
     total = 0
+    for bc in schema_backend_classes(ix):
+        f = bc.method("validate")
+        if f is not None and f.qual not in EXCLUDED:
+            total += r3_snapshot_freshness(ctx, f)
     for f in scope(ix):
         if f.qual in EXCLUDED:
             ctx.notes.append(f"R1 named exclusion {f.short}: {EXCLUDED[f.qual]}")
